@@ -77,10 +77,15 @@ func sameTags(a, b map[string]string) bool {
 func validBody(cmd string, v int, seq int) interface{} {
 	switch cmd {
 	case "handshake":
-		if v == 1 {
+		switch v {
+		case 1:
 			return map[string]interface{}{"Version": 1}
+		case 0:
+			return map[string]interface{}{"Version": 0}
+		case 2:
+			return map[string]interface{}{"Version": 2}
 		}
-		return map[string]interface{}{"Version": 7}
+		return map[string]interface{}{"Version": 2147483647}
 	case "auth":
 		if v == 1 {
 			return map[string]interface{}{"AuthKey": rightKey}
